@@ -78,6 +78,26 @@ def runXsw : P String := do
       aview := fun n => (avs.lookup n).join, sview := fun n => (svs.lookup n).join, plain := fun n => (plains.lookup n).join }
   pure (SPStruct.render (parseT inp))
 
+/-- `xswart <cfg> <trust> <now> <ids> <url> <wellFormed> <ledger> <resolveId> <tree> <plains> <aviews> <sviews> <rviews> <arviews>` -/
+def runXswArt : P String := do
+  let c ← SPStruct.cfg; let tr ← trust; let now ← int; let ids ← list str; let url ← str; let wf ← bool
+  let lg ← ledger
+  let rid ← str
+  let root ← tree
+  let plains ← list (do let n ← nat; let p ← opt tree; pure (n, p))
+  let avs ← list (do let n ← nat; let a ← opt SPStruct.assertion; pure (n, a))
+  let svs ← list (do let n ← nat; let v ← opt sigView; pure (n, v))
+  let rvs ← list (do let n ← nat; let h ← opt header; pure (n, h))
+  let arvs ← list (do
+    let n ← nat
+    let h ← opt (do let irt ← str; let ii ← int; let iss ← opt str; let st ← str; pure (irt, ii, iss, st))
+    pure (n, h))
+  let inp : Input :=
+    { cfg := c, trust := tr, ledger := lg, now := now, ids := ids, url := url, wellFormed := wf, root := root, header := none,
+      aview := fun n => (avs.lookup n).join, sview := fun n => (svs.lookup n).join, plain := fun n => (plains.lookup n).join,
+      rview := fun n => (rvs.lookup n).join, arview := fun n => (arvs.lookup n).join }
+  pure (SPStruct.render (parseArtifactT inp rid))
+
 /-- `canon <ctx> <tree>`: the model's canonical rendering (for debugging the correspondence) -/
 def runCanon : P String := do
   let ctx ← ctxBindings; let t ← tree
@@ -85,6 +105,6 @@ def runCanon : P String := do
   | some s => pure ("ok " ++ encStr s)
   | none => pure "err site=canon"
 
-def handlers : List (String × P String) := [("xsw", runXsw), ("canon", runCanon)]
+def handlers : List (String × P String) := [("xsw", runXsw), ("xswart", runXswArt), ("canon", runCanon)]
 
 end SamlVerif.Driver.SPTreeD
